@@ -22,7 +22,7 @@ import (
 
 // C04 — new capacity is opened only when existing / in-flight capacity cannot admit the pod.
 
-var c04Stages = []string{"launched", "node-unregistered", "node-unregistered-no-hostname-zero-ext", "registered", "initialized"}
+var c04Stages = []string{"launched", "node-unregistered", "node-unregistered-no-hostname-zero-ext", "node-unregistered-explicit-zero-ext", "registered", "registered-explicit-zero-ext", "initialized"}
 
 // provisionerReconcile runs the real Provisioner.Reconcile (batcher, Synced gate, Schedule, CreateNodeClaims) to
 // completion, stepping the scenario clock for the batcher's timers. Returns the calls it made.
@@ -69,12 +69,12 @@ func advance(w *world.World, ctrl *lifecycle.Controller, name, stage string, pic
 	if stage == "launched" {
 		return launch, true
 	}
-	w.KubeletRegister(nc, world.RegisterOpts{NotReadyTaint: true, ZeroExt: strings.Contains(stage, "zero-ext"), OmitHostname: strings.Contains(stage, "no-hostname")})
+	w.KubeletRegister(nc, world.RegisterOpts{NotReadyTaint: true, ZeroExt: strings.Contains(stage, "zero-ext") && !strings.Contains(stage, "explicit"), ExplicitZeroExt: strings.Contains(stage, "explicit-zero-ext"), OmitHostname: strings.Contains(stage, "no-hostname")})
 	if strings.HasPrefix(stage, "node-unregistered") {
 		return launch, true
 	}
 	rec()
-	if stage == "registered" {
+	if strings.HasPrefix(stage, "registered") {
 		return launch, true
 	}
 	nodeName := "node-" + name
